@@ -17,6 +17,7 @@ CONSTANTS
   LiveRounds = TRUE
   CachePutFails = TRUE
   CrashInCreate = TRUE
+  IssuerEntries = {}
   Stops = TRUE
 PROPERTIES NoStrandedSubmitter
 CHECK_DEADLOCK FALSE
